@@ -27,7 +27,8 @@ RULE = ('random message sequences (all 4 types, both byte orders, random header-
 STATE_MEASURE = 'distinct (role, boundary-class multiset, messages-per-read profile) tuples'
 PROBES = ['cut-in-fixed-header', 'cut-in-handshake-line', 'join-handshake-and-message',
           'many-messages-one-read', 'crlf-in-binary', 'big-endian-message', 'one-byte-reads', 'neighbour-connection-interleaved',
-          'neighbour-lost-mid-stream', 'neighbour-poisoned']
+          'neighbour-lost-mid-stream', 'neighbour-poisoned',
+          'handler-changes-received-body', 'handler-hangs-up']
 COMPONENTS = {
     'real': ['txdbus.protocol.BasicDBusProtocol.dataReceived/rawDBusMessageReceived',
              'txdbus.authentication.ClientAuthenticator', 'txdbus.authentication.BusAuthenticator',
@@ -70,20 +71,25 @@ def make_receiver(role, record):
             record['raw'].append(bytes(raw))
             base.rawDBusMessageReceived(self, raw)
 
+        def _typed(self, mt, m):
+            record['typed'].append((mt, m))
+            if record.get('on_typed'):
+                record['on_typed'](self, len(record['typed']) - 1, mt, m)
+
         def methodCallReceived(self, m):
-            record['typed'].append((1, m))
+            self._typed(1, m)
             base.methodCallReceived(self, m)
 
         def methodReturnReceived(self, m):
-            record['typed'].append((2, m))
+            self._typed(2, m)
             base.methodReturnReceived(self, m)
 
         def errorReceived(self, m):
-            record['typed'].append((3, m))
+            self._typed(3, m)
             base.errorReceived(self, m)
 
         def signalReceived(self, m):
-            record['typed'].append((4, m))
+            self._typed(4, m)
             base.signalReceived(self, m)
 
     p = Rec()
@@ -129,6 +135,8 @@ def build_stream(ds, role, kind, tier='quick'):
                        [[(j * 7) & 0xff for j in range(2000 + ds.choose(60000))]])
             m.encode()
         msgs.append(m)
+        if ds.flag(0.08):
+            msgs.append(m)           # the very same bytes once more (a repeated payload)
         serial = (serial % (2**32 - 2)) + 1
     return handshake(role), msgs
 
@@ -254,6 +262,37 @@ def scenario(ctx):
             mode, sizew = 0, [6, 2, 1, 2, 1, 1, 1, 1]     # one-byte reads only for modest streams
         if mode == 2:
             sim.probe('one-byte-reads')
+        # user code in the handlers: it may change what it was handed (the next message is owed
+        # its own content all the same) and it may hang up (what the same read still holds was
+        # received and is delivered)
+        meddle = ds.flag(0.3)
+        hang_at = ds.choose(len(msgs)) if kind != 'flood' and ds.flag(0.1) else None
+        checked = set()
+
+        def scramble(v):
+            if isinstance(v, list):
+                for x in v:
+                    scramble(x)
+                v.append('meddled')
+            elif isinstance(v, dict):
+                for x in list(v.values()):
+                    scramble(x)
+                v['meddled'] = 1
+
+        def on_typed(p, idx, mt, m):
+            if idx < len(msgs):
+                check_typed(idx, msgs[idx], mt, m)
+                checked.add(idx)
+            if meddle and m.body:
+                sim.probe('handler-changes-received-body')
+                scramble(m.body)
+            if idx == hang_at:
+                sim.probe('handler-hangs-up')
+                hung[0] = True
+                p.transport.loseConnection()
+        hung = [False]
+        if meddle or hang_at is not None:
+            record['on_typed'] = on_typed
         classes = []
         steps = 0
         # a neighbour: another connection of the same process receives its own stream, its reads
@@ -341,7 +380,16 @@ def scenario(ctx):
         raise Violation('C04/exception', exc_key(err),
                         'exception escaped dataReceived after %d of %d messages: %r'
                         % (len(record['raw']), len(msgs), err))
-    if proto.transport.state != net.OPEN:
+    hung_up = 'cuts' not in pre and hung[0]
+    if hung_up:
+        # everything received up to and including the read in which the handler hung up
+        off, n_exp = hs_len, 0
+        for m in msgs:
+            off += len(m.raw)
+            if off <= pipe.base:
+                n_exp += 1
+        msgs = msgs[:n_exp]
+    elif proto.transport.state != net.OPEN:
         raise Violation('C04/closed', 'receiver closed the connection',
                         'receiver closed the connection after %d of %d messages'
                         % (len(record['raw']), len(msgs)))
@@ -362,8 +410,9 @@ def scenario(ctx):
         raise Violation('C04/sequence', 'typed-count',
                         '%d typed callbacks for %d messages' % (len(record['typed']), len(msgs)))
     for i, (ref, (mt, m)) in enumerate(zip(msgs, record['typed'])):
-        check_typed(i, ref, mt, m)
-    if getattr(proto, '_buffer', b''):
+        if 'cuts' in pre or i not in checked:
+            check_typed(i, ref, mt, m)
+    if getattr(proto, '_buffer', b'') and not hung_up:
         raise Violation('C04/residual', 'buffer', '%d bytes left in the framing buffer'
                         % len(getattr(proto, '_buffer', b'')))
 
